@@ -13,7 +13,7 @@ Param(r) ==
     CASE r.file = "leader"  -> [nmap |-> r.nmap, np |-> r.np, attlen |-> r.attlen, nch |-> r.nch,
                                 f1 |-> r.f1, f2 |-> r.f2, f3 |-> r.f3, f4 |-> r.f4]
       [] r.file = "volume"  -> [nfp |-> r.nfp]
-      [] r.file = "image"   -> [kind |-> r.kind, n |-> r.n, ndata |-> r.ndata]
+      [] r.file = "image"   -> [kind |-> r.kind, n |-> r.n, ndata |-> r.ndata, bps |-> r.bps]
       [] r.file = "trailer" -> [nlow |-> r.nlow, lens |-> r.lens]
 
 ASSUME \A i \in 1..Len(Req) : JsonSerialize(Req[i].out, Instance(Req[i].file, Param(Req[i])))
